@@ -266,6 +266,13 @@ func registerModels(P *Program) {
 		}
 		n := ex.argBig(args[0], "sumFourSquaresSpecial")
 		ex.panicIf(smt.Not(smt.Eq(smt.Mod(n.I, smt.I64(4)), smt.I64(2))), "sumFourSquaresSpecial called with an argument that is not 2 modulo 4 (its precondition)")
+		// the base case (n < 4, i.e. n = 2) involves no randomised search: the real code runs
+		// (a free choice with the assumption on the real side only: the contract side keeps the path
+		// condition it always had - the contract holds for the base case too)
+		if ex.feasible(smt.Lt(n.I, smt.I64(4))) && ex.branch(smt.Var(ex.fresh("realBaseCase"), smt.Bool, nil, nil)) {
+			ex.assume(smt.Lt(n.I, smt.I64(4)))
+			return nil, false
+		}
 		var hi *big.Int
 		if n.I.Hi != nil && n.I.Hi.Sign() >= 0 {
 			hi = new(big.Int).Sqrt(n.I.Hi)
@@ -278,7 +285,7 @@ func registerModels(P *Program) {
 			out[i] = ex.newBig(BigVal{I: d})
 		}
 		ex.assume(smt.Eq(sum, n.I))
-		ex.stubs["sumFourSquaresSpecial replaced by its contract: for n = 2 (mod 4), four non-negative integers whose squares sum to n"] = true
+		ex.stubs["sumFourSquaresSpecial replaced by its contract for arguments of 4 and more (the base case runs from its code): for n = 2 (mod 4), four non-negative integers whose squares sum to n"] = true
 		return out, true
 	}
 	m[commonPkg+".ModInverse"] = func(ex *Exec, fn *ssa.Function, args []Value) (Value, bool) {
